@@ -255,7 +255,7 @@ type leafSpec struct {
 var envLeafTypes = []reflect.Type{
 	reflect.TypeOf(false), reflect.TypeOf(""), reflect.TypeOf(int(0)), reflect.TypeOf(int8(0)), reflect.TypeOf(int16(0)), reflect.TypeOf(int32(0)), reflect.TypeOf(int64(0)),
 	reflect.TypeOf(uint(0)), reflect.TypeOf(uint8(0)), reflect.TypeOf(uint16(0)), reflect.TypeOf(uint32(0)), reflect.TypeOf(uint64(0)),
-	reflect.TypeOf(float32(0)), reflect.TypeOf(float64(0)), reflect.TypeOf(complex128(0)), reflect.TypeOf(time.Duration(0)),
+	reflect.TypeOf(float32(0)), reflect.TypeOf(float64(0)), reflect.TypeOf(complex128(0)), reflect.TypeOf(complex64(0)), reflect.TypeOf(time.Duration(0)),
 	reflect.TypeOf(Level(0)), reflect.TypeOf(NameStr("")), reflect.TypeOf(myInt(0)),
 	reflect.TypeOf([]string(nil)), reflect.TypeOf([]int(nil)), reflect.TypeOf([]uint8(nil)), reflect.TypeOf([]Level(nil)), reflect.TypeOf([]NameStr(nil)), reflect.TypeOf([]float64(nil)),
 	reflect.TypeOf(map[string]string(nil)), reflect.TypeOf(map[string]int(nil)), reflect.TypeOf(map[Level]bool(nil)), reflect.TypeOf(map[string][]string(nil)),
@@ -444,6 +444,9 @@ func genEnvValue(r *RNG, t reflect.Type) (text string, want string) {
 		return v.String(), "& i" + v.String()
 	case reflect.Float32, reflect.Float64:
 		if bad {
+			if r.Bool() { // outside the type's range: an error, not an infinity
+				return map[int]string{32: "1e39", 64: "1e400"}[t.Bits()], ""
+			}
 			return "1.2.3", ""
 		}
 		x := float64(r.Intn(100000)) / 64
@@ -452,6 +455,14 @@ func genEnvValue(r *RNG, t reflect.Type) (text string, want string) {
 	case reflect.Complex128:
 		x := complex(float64(r.Intn(100)), float64(r.Intn(100)))
 		s := strconv.FormatComplex(x, 'g', -1, 128)
+		return s, "& s" + hexEnc(s)
+	case reflect.Complex64:
+		if bad {
+			// a part outside the float32 range (inside the float64 range): must be an error, not an infinity
+			return []string{"1e39", "(1-3.5e38i)", "(4e38+1i)", "-1e39i"}[r.Intn(4)], ""
+		}
+		x := complex(float32(r.Intn(100)), float32(r.Intn(100))/4)
+		s := strconv.FormatComplex(complex128(x), 'g', -1, 64)
 		return s, "& s" + hexEnc(s)
 	case reflect.Ptr:
 		txt, w := genEnvValue(r, t.Elem())
@@ -650,7 +661,7 @@ func checkC11(c *Ctx) {
 			if w == "" {
 				expectErr = true
 				switch l.typ.Kind() {
-				case reflect.Float32, reflect.Float64, reflect.Complex128:
+				case reflect.Float32, reflect.Float64, reflect.Complex128, reflect.Complex64:
 					extBad = true
 				case reflect.Int64:
 					extBad = extBad || l.typ == reflect.TypeOf(time.Duration(0))
